@@ -351,6 +351,27 @@ type jsonCase struct {
 	data      []byte
 	transport string // seek | pipe | file
 	policy    string
+	stream    bool // --stream
+}
+
+// trace runs the command's input iterator over a non-seekable reader with the given read policy and
+// returns the (bytes read, bytes consumed) pairs of the delivered values, the bytes read at the error,
+// the iterator's offset/line at the error and the raw offset encoding/json reported.
+func trace(data []byte, policy string, stream bool) (steps string, off int64, line int, raw int64) {
+	pr := &pipeReader{data: data, policy: policies[policy]}
+	var cb strings.Builder
+	cb.WriteString("(c")
+	raw = -1
+	cli.VerifC17Trace(pr, stream, func(done bool, pos, offset int64, ln int, rawErr int64) {
+		if done {
+			cb.WriteString(" " + strconv.Itoa(pr.pos))
+			off, line, raw = offset, ln, rawErr
+			return
+		}
+		cb.WriteString(" (" + strconv.Itoa(pr.pos) + " " + strconv.FormatInt(pos, 10) + ")")
+	})
+	cb.WriteString(")")
+	return cb.String(), off, line, raw
 }
 
 func runJSONCase(c *Ctx, jc jsonCase, tmpdir string) (line string, ok bool) {
@@ -360,17 +381,23 @@ func runJSONCase(c *Ctx, jc jsonCase, tmpdir string) (line string, ok bool) {
 		return "", false
 	}
 	var stdin io.Reader
-	var pr *pipeReader
 	args := []string{"-c", "0"}
+	sfx := ""
+	if jc.stream {
+		args = []string{"--stream", "-c", "0"}
+		sfx = " stream"
+	}
 	fname := "<stdin>"
-	tr := "(" + jc.transport + ")"
+	tr := "(" + jc.transport + sfx + ")"
+	chunks, state := "(c)", "(st)"
 	switch jc.transport {
 	case "seek":
 		stdin = bytes.NewReader(jc.data)
 	case "pipe":
-		pr = &pipeReader{data: jc.data, policy: policies[jc.policy]}
-		stdin = pr
-		tr = "(pipe " + jc.policy + ")"
+		stdin = &pipeReader{data: jc.data, policy: policies[jc.policy]}
+		tr = "(pipe " + jc.policy + sfx + ")"
+		st, off, ln, _ := trace(jc.data, jc.policy, jc.stream)
+		chunks, state = st, fmt.Sprintf("(st %d %d)", off, ln)
 	case "file":
 		fname = filepath.Join(tmpdir, "in.json")
 		if err := os.WriteFile(fname, jc.data, 0o644); err != nil {
@@ -379,23 +406,26 @@ func runJSONCase(c *Ctx, jc jsonCase, tmpdir string) (line string, ok bool) {
 		args = append(args, fname)
 		stdin = strings.NewReader("")
 	}
-	out := &outRecorder{pr: pr}
-	er := &errRecorder{pr: pr}
-	cli.VerifRunC17(args, stdin, out, er)
-	stderr := er.buf.String()
-	var cb strings.Builder
-	cb.WriteString("(c")
-	if pr != nil {
-		for _, m := range out.marks {
-			cb.WriteString(" " + strconv.Itoa(m))
+	if strings.HasPrefix(errk, "(syn ") {
+		// the offset encoding/json gives the command: the same as the plain decoder's, except under --stream
+		raw := strings.TrimSuffix(strings.TrimPrefix(errk, "(syn "), ")")
+		if jc.stream {
+			_, _, _, r := trace(jc.data, "full", true)
+			raw = strconv.FormatInt(r, 10)
+			if r < 0 {
+				c.Count("json:stream-other-error-skipped")
+				return "", false
+			}
 		}
-		cb.WriteString(" " + strconv.Itoa(er.first))
+		errk = strings.TrimSuffix(errk, ")") + " " + raw + ")"
 	}
-	cb.WriteString(")")
-	chunks := cb.String()
+	var out bytes.Buffer
+	var er bytes.Buffer
+	cli.VerifRunC17(args, stdin, &out, &er)
+	stderr := er.String()
 	rep := parseReport(stderr, "invalid json: ", fname, fname)
-	c.Count("json:" + jc.transport)
-	return fmt.Sprintf("(json %s %s %s %s %s %s %s %s)", tr, Hexs([]byte(fname)), rle(jc.data), errk, chunks,
+	c.Count("json:" + jc.transport + strings.TrimSpace(sfx))
+	return fmt.Sprintf("(json %s %s %s %s %s %s %s %s %s)", tr, Hexs([]byte(fname)), rle(jc.data), errk, chunks, state,
 		Hexs([]byte(stderr)), rep, swtab(excerptOf(rep))), true
 }
 
@@ -568,12 +598,18 @@ func runJSON(c *Ctx) {
 					if kind < 3 && r.Chance(1, 3) {
 						data = append(data, []byte("1"+term+"[2]"+term)...)
 					}
-					trs := []jsonCase{{data, "seek", ""}, {data, "pipe", policyNames[r.Intn(len(policyNames))]}}
+					trs := []jsonCase{{data, "seek", "", false}, {data, "pipe", policyNames[r.Intn(len(policyNames))], false}}
 					if r.Chance(1, 6) {
-						trs = append(trs, jsonCase{data, "file", ""})
+						trs = append(trs, jsonCase{data, "file", "", false})
 					}
 					if r.Chance(1, 2) {
-						trs = append(trs, jsonCase{data, "pipe", "full"})
+						trs = append(trs, jsonCase{data, "pipe", "full", false})
+					}
+					if r.Chance(1, 5) {
+						trs = append(trs, jsonCase{data, "pipe", policyNames[r.Intn(len(policyNames))], true})
+					}
+					if r.Chance(1, 8) {
+						trs = append(trs, jsonCase{data, "seek", "", true})
 					}
 					for _, jc := range trs {
 						emitCase(jc)
@@ -604,13 +640,17 @@ func runCanon(c *Ctx) {
 		c.Emit("%s", l)
 		names = append(names, name)
 	}
-	add(`pipe-reset docsize=100 ndocs=164 err={"b": tru } reads=full`, jsonCase{d7, "pipe", "full"})
-	add(`pipe-reset docsize=100 ndocs=164 err={"b": tru } trailing=1,2,3 reads=full`, jsonCase{d7b, "pipe", "full"})
-	add(`cr-window seek docsize=100 ndocs=200 term=CR err={"b": tru }`, jsonCase{cr, "seek", ""})
-	add(`cr-window pipe docsize=100 ndocs=200 term=CR err={"b": tru } reads=full`, jsonCase{cr, "pipe", "full"})
-	// controls: the same inputs where the property holds (seekable D7 input; LF instead of CR)
-	add(`control seek d7`, jsonCase{d7, "seek", ""})
-	add(`control file d7`, jsonCase{d7, "file", ""})
+	// known finding: lone-CR terminators before the window are not counted
+	add(`cr-window seek docsize=100 ndocs=200 term=CR err={"b": tru }`, jsonCase{cr, "seek", "", false})
+	add(`cr-window pipe docsize=100 ndocs=200 term=CR err={"b": tru } reads=full`, jsonCase{cr, "pipe", "full", false})
+	// known finding: --stream positions use offsets of dec.Token(), which are not absolute
+	add(`stream-offset seek input={"b": tru }`, jsonCase{[]byte(`{"b": tru }` + "\n"), "seek", "", true})
+	// regression (D7, repaired by e216f69): read-ahead containing the offending byte must be kept
+	add(`regression pipe-reset docsize=100 ndocs=164 err={"b": tru } reads=full`, jsonCase{d7, "pipe", "full", false})
+	add(`regression pipe-reset docsize=100 ndocs=164 err={"b": tru } trailing=1,2,3 reads=full`, jsonCase{d7b, "pipe", "full", false})
+	// controls
+	add(`control seek d7`, jsonCase{d7, "seek", "", false})
+	add(`control file d7`, jsonCase{d7, "file", "", false})
 	c.Stats["canon_names"] = names
 }
 
@@ -897,7 +937,11 @@ func runBin(c *Ctx) {
 			chunks = fmt.Sprintf("(c %d)", len(data))
 			tr = "(pipe real)"
 		}
-		c.Emit("(json %s %s %s %s %s %s %s %s)", tr, Hexs([]byte(fname)), rle(data), errk, chunks,
+		if strings.HasPrefix(errk, "(syn ") {
+			raw := strings.TrimSuffix(strings.TrimPrefix(errk, "(syn "), ")")
+			errk = strings.TrimSuffix(errk, ")") + " " + raw + ")"
+		}
+		c.Emit("(json %s %s %s %s %s (st) %s %s %s)", tr, Hexs([]byte(fname)), rle(data), errk, chunks,
 			Hexs([]byte(stderr)), rep, swtab(excerptOf(rep)))
 		c.Count("bin:" + transport)
 	}
@@ -959,6 +1003,9 @@ func runReplay(c *Ctx) {
 		}
 	}
 	for toks[i] != ")" {
+		if toks[i] == "stream" {
+			jc.stream = true
+		}
 		i++
 	}
 	i += 2 // skip ")" and fname
